@@ -215,6 +215,12 @@ SigningComplete(q) ==
     /\ q.keys = "short" => ~HasKind(q, IsSh)
     /\ q.keys = "nopkh" => ~HasKind(q, IsPkh)
 
+(* A coin may only be added together with the key (P2PKH) or the redeem script (P2SH) that     *)
+(* hashes to the address in its script: same kind, same keys, same order, same threshold.     *)
+(* Variants: kind + key set; "sh23C" holds the keys of "sh23A" in another order.              *)
+CoinVariants == {"pkhA", "pkhB", "sh12A", "sh12B", "sh23A", "sh23C"}
+SpendInfoAccepted(coin, info) == coin = info
+
 (* ---------------------------------------------------------------------------------------- *)
 (* Theorems (checked by TLC on every request of the model's domain).                         *)
 
